@@ -27,7 +27,7 @@ SANE = {
     INT: ["0", "1", "7", "12", "49", "50", "123"],
     HEX: ["0x0", "0x1", "0x1F", "0x3f", "0x40", "0x10"],
     FLOAT: ["0.5", "1.5", "5.0", "15.5", "3.25"],
-    STRING: ["a", "hello", 'q"t', "b\\c", "", "ab", "n", "y"],  # "n"/"y": values that collide with the bool encoding
+    STRING: ["a", "hello", 'q"t', "b\\c", "", "ab", "n", "y", "\u00e9\u00df"],  # "n"/"y" collide with the bool encoding; non-ASCII: bytes != characters
 }
 
 
@@ -39,7 +39,7 @@ def lit(t, r):
     if t == FLOAT:
         return r.choice(["0.5", "1.5", "10.0", "3.25", "5", "1e1", "0.50"])  # incl. non-canonical spellings
     if t == STRING:
-        return '"%s"' % r.choice(["a", "b c", "x\\\\y", 'q\\"t', "", "hello", "n", "y"])
+        return '"%s"' % r.choice(["a", "b c", "x\\\\y", 'q\\"t', "", "hello", "n", "y", "\u00fc"])
     return r.choice(["y", "n"])
 
 
